@@ -225,6 +225,7 @@ func runC12(t *testing.T, c HandleCase) (*h.Violation, h.Info) {
 		}
 	}
 	known := map[string]bool{"d1": true, "d2": true}
+	var idle []namedHandle
 	// drain makes sure no poll flight started earlier (e.g. by a parked poll whose
 	// caller was cancelled) is still running: a Refresh that returns nil was either
 	// a fresh flight or joined one that succeeded.
@@ -357,6 +358,83 @@ func runC12(t *testing.T, c HandleCase) (*h.Violation, h.Info) {
 				fail("harness", "polls keep failing after a parked poll was released")
 			}
 			info.Class("reads-while-poll-parked")
+		case "double-lookup":
+			// two lookups of DIFFERENT unknown names whose requests overlap: each must get its own secret
+			var names []string
+			for _, n := range []string{"u1", "u2", "u3"} {
+				if !known[n] && len(names) < 2 {
+					names = append(names, n)
+				}
+			}
+			if len(names) < 2 {
+				continue
+			}
+			svc.SetScript(names[0], []fake.Beh{{Kind: "gate"}})
+			type lr struct {
+				hd  setec.Secret
+				err error
+			}
+			res := make([]chan lr, 2)
+			for i, n := range names {
+				res[i] = make(chan lr, 1)
+				go func() {
+					hd, err := st.LookupSecret(context.Background(), n)
+					res[i] <- lr{hd, err}
+				}()
+				if i == 0 {
+					for k := 0; k < 4000 && svc.InFlight(n) == 0; k++ {
+						time.Sleep(25 * time.Microsecond)
+					}
+				}
+			}
+			// give the second lookup a moment to either finish on its own or (wrongly) attach to the first
+			var second lr
+			gotSecond := false
+			select {
+			case second = <-res[1]:
+				gotSecond = true
+			case <-time.After(3 * time.Millisecond):
+			}
+			svc.OpenGate()
+			svc.SetScript(names[0], nil)
+			first := <-res[0]
+			if !gotSecond {
+				second = <-res[1]
+			}
+			for i, r := range []lr{first, second} {
+				if r.err != nil {
+					fail("harness", "lookup %q: %v", names[i], r.err)
+					break
+				}
+				if n, _, ok := parseC12(r.hd.Get()); !ok || n != names[i] {
+					fail("never-another-secrets-value", "two overlapping lookups of %q and %q: the handle returned for %q yields %q", names[0], names[1], names[i], r.hd.Get())
+					break
+				}
+				if !firstInstall(names[i], r.hd) {
+					break
+				}
+				known[names[i]] = true
+				hmu.Lock()
+				handles = append(handles, namedHandle{names[i], r.hd})
+				hmu.Unlock()
+			}
+			info.Class("overlapping-lookups-of-different-names")
+		case "idle-handle":
+			// a handle that is obtained now and not touched again until the very end (possibly after Close)
+			if closed || known[ev.Name] || (ev.Name != "u1" && ev.Name != "u2" && ev.Name != "u3") {
+				continue
+			}
+			hd, err := st.LookupSecret(context.Background(), ev.Name)
+			if err != nil {
+				fail("harness", "lookup %q: %v", ev.Name, err)
+				break
+			}
+			known[ev.Name] = true
+			imu.Lock()
+			installs[ev.Name] = []uint32{cur[ev.Name]}
+			imu.Unlock()
+			idle = append(idle, namedHandle{ev.Name, hd})
+			info.Class("idle-handle-kept")
 		case "joiner-timeout":
 			// Poll A stalls on d2's request (possibly after it fetched d1); d1 changes again; a Refresh with
 			// a short deadline joins A and times out; another Refresh is issued while A is still stalled.
@@ -480,6 +558,16 @@ func runC12(t *testing.T, c HandleCase) (*h.Violation, h.Info) {
 	// final: after everything (possibly after Close) every handle still yields the installed value
 	hmu.Lock()
 	defer hmu.Unlock()
+	for _, nh := range idle {
+		// never read since it was obtained - through polls, expiry sweeps and possibly Close
+		var b []byte
+		if v := h.Safely(func() *h.Violation { b = nh.h.Get(); return nil }); v != nil {
+			return h.V("never-panics", "a handle of %q that had been idle since it was obtained panicked when finally called (closed=%v): %s", nh.name, closed, v.Detail), info
+		}
+		if n, ver, ok := parseC12(b); !ok || n != nh.name || !svc.EverActive(n, ver, b) {
+			return h.V("complete-really-served-value", "idle handle of %q yields %q", nh.name, b), info
+		}
+	}
 	for _, nh := range handles {
 		var b []byte
 		if v := h.Safely(func() *h.Violation { b = nh.h.Get(); return nil }); v != nil {
@@ -512,7 +600,7 @@ func genHandleCase(rt *rapid.T) HandleCase {
 	c.Events = rapid.SliceOfN(rapid.Custom(func(rt *rapid.T) HEvent {
 		return HEvent{
 			Back: rapid.IntRange(0, 3).Draw(rt, "back") == 0,
-			Kind: rapid.SampledFrom([]string{"set", "set", "set", "poll", "poll", "refresh", "lookup", "expire", "yield", "yield", "parked-poll", "parked-lookup", "handle-during-poll", "joiner-timeout", "close"}).Draw(rt, "kind"),
+			Kind: rapid.SampledFrom([]string{"set", "set", "set", "poll", "poll", "refresh", "lookup", "expire", "yield", "yield", "parked-poll", "parked-lookup", "handle-during-poll", "joiner-timeout", "double-lookup", "idle-handle", "close"}).Draw(rt, "kind"),
 			Name: rapid.SampledFrom([]string{"d1", "d1", "d2", "u1", "u2", "u3", "c1", "c2"}).Draw(rt, "name"),
 		}
 	}), 3, 30).Draw(rt, "events")
